@@ -154,6 +154,11 @@ func ByteStreamProducer(opts ...byteStreamOpt) Producer {
 	}
 
 	return ProducerFunc(func(writer io.Writer, data interface{}) error {
+		// a closable payload is closed on every path, refusals included
+		if rc, isDataCloser := data.(io.ReadCloser); isDataCloser {
+			defer rc.Close()
+		}
+
 		if writer == nil {
 			return errors.New("ByteStreamProducer requires a writer") // early exit
 		}
@@ -171,10 +176,6 @@ func ByteStreamProducer(opts ...byteStreamOpt) Producer {
 
 		if data == nil {
 			return errors.New("nil data for ByteStreamProducer")
-		}
-
-		if rc, isDataCloser := data.(io.ReadCloser); isDataCloser {
-			defer rc.Close()
 		}
 
 		switch origin := data.(type) {
@@ -201,6 +202,9 @@ func ByteStreamProducer(opts ...byteStreamOpt) Producer {
 
 		default:
 			v := reflect.Indirect(reflect.ValueOf(data))
+			if !v.IsValid() {
+				return fmt.Errorf("nil pointer data (%T) for ByteStreamProducer", data)
+			}
 			t := v.Type()
 
 			switch {
